@@ -75,6 +75,10 @@ def data_stmt(rng):
     if k == 3:
         return [".dc32 " + ", ".join(number(rng, 32) for _ in range(rng.range(1, 3)))]
     if k == 4:
+        if rng.chance(1, 3):
+            # white space inside quotes is data: a literal TAB (or several blanks) must reach the image as written
+            txt = "".join(rng.pick(["a", "b", "\t", " ", "  ", "z", "\t\t", "9"]) for _ in range(rng.range(1, 6)))
+            return [rng.pick(['.ascii "%s"', '.db "%s"', '.asciiz "%s"']) % txt]
         return [".db (%s + %s) & 0xff, %s << 1 & 0xff" % (number(rng), number(rng), number(rng, 6))]
     return ['.asciiz "%s"' % "".join(rng.pick("qwertyuiop") for _ in range(rng.range(1, 6)))]
 
@@ -83,7 +87,7 @@ def instr_stmt(rng, cpu):
     c = corpus().get(cpu)
     if not c:
         return data_stmt(rng)
-    return ["  " + rng.pick(c)[0]]
+    return [rng.pick(["  ", "  ", "\t", " \t "]) + rng.pick(c)[0]]
 
 
 def gen_program(rng, cpu=None, nstmts=None, allow_includes=True, instr_share=3):
@@ -99,8 +103,12 @@ def gen_program(rng, cpu=None, nstmts=None, allow_includes=True, instr_share=3):
     macro_names = []
     ninc = 0
     for i in range(n):
-        k = rng.below(20)
-        if k < instr_share * 3:
+        k = rng.below(21)
+        if k == 20:
+            # a further .org: placement order in the source (ascending or descending, other 64 KiB page) must not matter
+            stmts.append([".org 0x%x" % rng.pick([0x40, 0x400, 0x2000, 0x9000, 0x12000, 0x24000, 0x3fff0])])
+            stmts.append(data_stmt(rng))
+        elif k < instr_share * 3:
             stmts.append(instr_stmt(rng, cpu))
         elif k < 11:
             stmts.append(data_stmt(rng))
